@@ -98,6 +98,26 @@ raise before anything was changed (a reply too short to parse): the subsystem st
 theorem state_stays_wellformed (evs : List Ev) (hwf : ∀ e ∈ evs, e.WF) : (run Variant.fixed St.init evs).1.Ok :=
   run_ok St.init_ok hwf
 
+/-- **Every transfer is split into messages within the protocol limits** (any history, any replies): a packet handed
+to the link has at most 30 payload bytes; a write request carries at most `writeMax = 25 ≤ writeLimit` data bytes
+behind its 5-byte head; a read request is 6 bytes and asks for at most `readMax = 20 ≤ readLimit` bytes. -/
+theorem packets_within_limits (evs : List Ev) (hwf : ∀ e ∈ evs, e.WF) (c : Nat) (d : List UInt8)
+    (h : Out.send c d ∈ (run Variant.fixed St.init evs).2) :
+    d.length ≤ crtpMaxPayload ∧
+    (c = specChanWrite → d.length ≤ 5 + writeLimit) ∧
+    (c = specChanRead → d.length = 6 ∧ ∀ n, d[5]? = some n → n.toNat ≤ readLimit) ∧
+    (c = specChanRead ∨ c = specChanWrite) := by
+  obtain ⟨h1, h2, h3, h4⟩ := run_fits St.init_ok hwf _ h
+  have e1 := gen_chanRead
+  have e2 := gen_chanWrite
+  have e3 := gen_readMax_le
+  have e4 := gen_writeMax_le
+  refine ⟨h1, fun hc => ?_, fun hc => ?_, ?_⟩
+  · have := h2 (by rw [e2]; exact hc); omega
+  · obtain ⟨a, b⟩ := h3 (by rw [e1]; exact hc)
+    exact ⟨a, fun n hn => Nat.le_trans (b n hn) e3⟩
+  · rw [← e1, ← e2]; exact h4
+
 /-! ## read_exact
 
 Closed system (Spec/C06): the library, the device (one byte image per memory; a request outside the image, to an
@@ -225,6 +245,53 @@ theorem write_exact_single (d : Device) (faults : List UInt8) (acts : List Act) 
   rw [hfull hS.2.2, hsame.2.1, hsame.2.2.1]
   simp
 
+/-! ## progress: every accepted reply brings the request closer to its notification
+
+(The liveness half of "completes": together with `read_exact` / `write_exact`, whose invariants say that the reply
+to the outstanding chunk is genuine, a transfer of `len` bytes is notified after at most `⌈len/readMax⌉`, resp.
+`⌈len/writeMax⌉`, deliveries of the outstanding reply - however many duplicates and stale replies are delivered in
+between, and immediately with a failure when an error status arrives or the link drops.) -/
+
+/-- a read reply for the outstanding chunk (right address, status 0, some data - or a zero-length read): the read
+completes with a notification, or strictly fewer bytes are left and the next chunk request goes out -/
+theorem read_reply_progress {s : St} (hs : s.Ok) {id : Nat} {r : RReq} (hget : dget? s.reads id = some r)
+    (data : List UInt8) (hd : 0 < data.length ∨ r.left = 0) :
+    (Out.readOk r.tag id r.addr (r.data ++ data) ∈ (onReadReply s id r.cur 0 data).outs ∧
+      dget? (onReadReply s id r.cur 0 data).st.reads id = none) ∨
+    (∃ r', dget? (onReadReply s id r.cur 0 data).st.reads id = some r' ∧ r'.left < r.left ∧
+      ∃ c d, Out.send c d ∈ (onReadReply s id r.cur 0 data).outs) := by
+  rw [onReadReply_eq hget (hs.reads id r hget)]
+  simp only [↓reduceIte, ne_eq, not_true_eq_false]
+  split
+  · right
+    exact ⟨r.plus data, by simp [dget?_dset_same], by simp only [RReq.plus]; omega, _, _, List.mem_singleton.2 rfl⟩
+  · left
+    exact ⟨by simp, by simp [dget?_derase_same]⟩
+
+/-- a write acknowledgement for the outstanding chunk (right address, status 0): the write completes with a success
+notification and leaves the queue, or strictly fewer bytes are left to send and the next chunk goes out -/
+theorem write_ack_progress {s : St} (hs : s.Ok) {id : Nat} {w : WReq} {rest : List WReq}
+    (hq : s.queue id = w :: rest) :
+    (Out.writeOk w.tag id w.addr ∈ (onWriteReply Variant.fixed s id w.cur 0).outs ∧
+      ((onWriteReply Variant.fixed s id w.cur 0).st.queue id).map (·.tag) = rest.map (·.tag)) ∨
+    (∃ w', ((onWriteReply Variant.fixed s id w.cur 0).st.queue id) = w' :: rest ∧ w'.tag = w.tag ∧
+      w'.rest.length < w.rest.length ∧ ∃ c d, Out.send c d ∈ (onWriteReply Variant.fixed s id w.cur 0).outs) := by
+  obtain ⟨w1, po, hsame, _, hres⟩ := onWriteReply_ack hs hq
+  rw [hres]
+  have hqset : ∀ (q : List WReq), ({ reads := s.reads, writes := dset s.writes id q, lock := false } : St).queue id = q := by
+    intro q; simp [St.queue_def, dget?_dset_same]
+  split
+  · rename_i hr
+    right
+    refine ⟨_, hqset _, by simp [WReq.afterChunk, hsame.1], ?_, _, _, List.mem_append_right _ (List.mem_singleton.2 rfl)⟩
+    have := gen_writeMax_pos
+    simp only [WReq.afterChunk, hsame.2.2.2.2.2.1, List.length_drop]
+    unfold wrLen; split <;> omega
+  · left
+    refine ⟨by simp, ?_⟩
+    rw [hqset]
+    cases rest <;> simp [nextStarted, WReq.afterChunk]
+
 /-! ## D9: the code before the repair -/
 
 /-- one 1-byte write, its acknowledgement, the same acknowledgement again -/
@@ -243,6 +310,40 @@ theorem quiescent_lock_free_live_counterexample :
 theorem d9_wedged :
     (step Variant.live (run Variant.live St.init d9Witness).1 (.write 2 0 0 [0x2b] false false)).res = .hang ∧
     (step Variant.live (run Variant.live St.init d9Witness).1 .disconnect).res = .hang := by decide
+
+/-! ## D17: zero-length write with a progress callback (the code before the repair) -/
+
+def d17Witness : List Ev := [.write 1 0 0 [] false true, .pkt 2 [0, 0, 0, 0, 0, 0]]
+
+/-- D17: the acknowledgement of a zero-length write with a progress callback raises ZeroDivisionError: the request
+is never notified, stays at the head of the queue of its memory - and the lock stays held (D9 discipline) -/
+theorem d17_never_notified :
+    (step Variant.live (run Variant.live St.init [.write 1 0 0 [] false true]).1 (.pkt 2 [0, 0, 0, 0, 0, 0])).res =
+      .raised .zeroDiv ∧
+    notifW 0 (run Variant.live St.init d17Witness).2 = [] ∧
+    (run Variant.live St.init d17Witness).1.queueTags 0 = [1] ∧
+    (run Variant.live St.init d17Witness).1.lock = true := by decide
+
+/-- with the D9 repair alone the lock is released but the request still never completes: every further
+acknowledgement raises again, every later write to that memory queues behind it -/
+theorem d17_without_its_repair :
+    let v : Variant := ⟨true, true, true, true, true, false⟩
+    (run v St.init (d17Witness ++ [.pkt 2 [0, 0, 0, 0, 0, 0], .write 2 0 0 [7] false false])).1.queueTags 0 = [1, 2] ∧
+    notifW 0 (run v St.init (d17Witness ++ [.pkt 2 [0, 0, 0, 0, 0, 0], .write 2 0 0 [7] false false])).2 = [] := by
+  decide
+
+/-- the repaired code completes it -/
+theorem d17_repaired : (run Variant.fixed St.init d17Witness).2 = [.send 2 [0, 0, 0, 0, 0], .writeOk 1 0 0] := by decide
+
+/-! ## Outside the property (modelled, recorded): requests that are not well-formed -/
+
+/-- a write beyond the 32-bit address space raises `struct.error` inside `Memory.write` (repaired code: the lock is
+released) - but the request stays recorded at the head of its queue (`Ev.WF` excludes such requests from the
+theorems above; the caller gets the exception) -/
+theorem oob_write_raises :
+    (step Variant.fixed St.init (.write 1 0 4294967296 [1] false false)).res = .raised .structError ∧
+    (step Variant.fixed St.init (.write 1 0 4294967296 [1] false false)).st.queueTags 0 = [1] ∧
+    (step Variant.fixed St.init (.write 1 0 4294967296 [1] false false)).st.lock = false := by decide
 
 /-! ## Non-vacuity -/
 
